@@ -11,6 +11,7 @@ EXPLANATION = (
     "per-PGN functions correlated per PGN group), is contained in the types the log-and-drop handler catches, and that handler touches "
     "neither state nor connection; anything else would reach the generic handler = connection-loss path. [SEND-TYPES] every _encode_impl returns the result of an encoder method annotated -> list[bytes]. UNDECIDED: transport flow "
     "control itself, implicit exceptions (AttributeError on malformed message objects)."
+    ' [SEND-ATOMIC release-by-owner] every explicit <lock>.release() in send()/connect() is preceded on all paths by the matching acquire of the same invocation (an exception raised before the acquire must not release a lock another sender holds). Assertions are taken as holding: an assert contributes what evaluating its condition can raise, not AssertionError.'
 )
 ASSUMPTIONS = ["CPython ast parser", "asyncio: tasks interleave only at a suspending await", "asyncio.Lock gives mutual exclusion between coroutines",
                "builtin exception hierarchy of the analysing interpreter", "StreamWriter.write does not suspend"]
